@@ -7,5 +7,6 @@ CONSTANTS
   Roots = {"tree"}
   ExtFilters = {"none"}
   Tops = {0, 1, 2}
+  Stride = 1
 INVARIANTS C16_RowPerDirectory C16_CellsExact C16_SummaryIsSum C16_AgreesWithBase C16_RunTargetsCurrentDir
            C16_TopSortedTruncated C16_TopJsonExact Emit
